@@ -5,6 +5,8 @@
 -/
 import CnvVerif.Driver.Haar
 import CnvVerif.Model.HaarExt
+import CnvVerif.Driver.HaarExt5Fdr
+import CnvVerif.Driver.HaarExt5Hmm
 import CnvVerif.Generated.ExprsHaar
 import CnvVerif.Generated.HmmConsts
 open Lean
@@ -92,6 +94,9 @@ def handleHaarExt (op : String) (inp : Json) (impl : Option Json) : R (Option Js
     pure (some (obj [("out", obj [("start", ratsJ Generated.HMM_START_3), ("trans", matJ Generated.HMM_TRANS_3),
                                   ("args", strsJ Generated.HMM_FROM_MATRIX_ARGS)]),
                      ("observed_shape", shape), ("spec", spec)]))
-  | _ => pure none
+  | _ => do   -- round 5: op `fdr_cdf` (Driver/HaarExt5Fdr.lean), op `hmm_states` (Driver/HaarExt5Hmm.lean)
+    match ← HaarFdr.handleHaarFdr op inp impl with
+    | some r => pure (some r)
+    | none => HaarHmmM.handleHaarHmmM op inp impl
 
 end CnvVerif.Drv.HaarExt
